@@ -2075,6 +2075,15 @@ impl<F: VfsFile> BPlusTree<F> {
 
 		// Proceed with redistribution
 		let new_separator = left_node.redistribute_to_right(right_node);
+		// The old separator's overflow chain belongs to the old key: release it, and
+		// let the write of the parent build a chain for the new key if it needs one
+		// (a stale pointer would either be dropped without freeing its pages or be
+		// reused with the old key's tail bytes).
+		let old_overflow = parent.get_overflow_at(left_idx);
+		if old_overflow != 0 {
+			self.free_overflow_chain(old_overflow)?;
+			parent.set_overflow_at(left_idx, 0);
+		}
 		parent.keys[left_idx] = new_separator;
 
 		self.write_node_owned(NodeType::Leaf(left_node.clone()))?;
@@ -2139,6 +2148,15 @@ impl<F: VfsFile> BPlusTree<F> {
 
 		// Proceed with redistribution
 		let new_separator = left_node.take_from_right(right_node);
+		// The old separator's overflow chain belongs to the old key: release it, and
+		// let the write of the parent build a chain for the new key if it needs one
+		// (a stale pointer would either be dropped without freeing its pages or be
+		// reused with the old key's tail bytes).
+		let old_overflow = parent.get_overflow_at(left_idx);
+		if old_overflow != 0 {
+			self.free_overflow_chain(old_overflow)?;
+			parent.set_overflow_at(left_idx, 0);
+		}
 		parent.keys[left_idx] = new_separator;
 
 		self.write_node_owned(NodeType::Leaf(left_node.clone()))?;
